@@ -190,6 +190,24 @@ example : (pollReenterOld OttoVerif.C01.concreteSem 5 (.cons (.block .nil) .nil)
 example : (pollReenter OttoVerif.C01.concreteSem 5 (.cons (.block .nil) .nil) ["L"] default).map (·.1)
     = some ["L"] := by decide
 
+/-! ### Copies have a handle of their own -/
+
+/-- a copy polls its own channel — whatever the embedder installs on it afterwards — and never the
+    template's: an interrupt sent to the template cannot be consumed by a copy, a copy can be halted -/
+theorem copy_polls_own (t : Handle) (fresh : Nat) (c : Option Nat) (others : List Handle)
+    (hfresh : ∀ x ∈ others, x.id ≠ fresh) :
+    polled ({ t.copy fresh with intr := c } :: others) { t.copy fresh with intr := c } = c := by
+  simp [polled, Handle.copy, List.find?]
+
+theorem copy_has_no_channel (t : Handle) (fresh : Nat) : (t.copy fresh).intr = none := rfl
+theorem copy_back_is_itself (t : Handle) (fresh : Nat) : (t.copy fresh).back = (t.copy fresh).id := rfl
+
+example : polled [{ id := 2, intr := some 9, back := 2 }, { id := 1, intr := some 7, back := 1 }]
+    { id := 2, intr := some 9, back := 2 } = some 9 := by decide
+/-- the seeded variants: a copy whose back pointer names the template polls the template's channel -/
+example : polled [{ id := 2, intr := some 9, back := 1 }, { id := 1, intr := some 7, back := 1 }]
+    { id := 2, intr := some 9, back := 1 } = some 7 := by decide
+
 /-! Regenerated facts about the current sources (GenFacts.lean is rewritten from /repo on every run). -/
 
 /-- every `enter…Scope` call site is immediately followed by a deferred `leaveScope` -/
@@ -213,6 +231,10 @@ theorem poll_sites : Gen.pollAtTop = [("cmplEvaluateNodeExpression", true), ("cm
     and puts them back (x := rt.labels; rt.labels = nil; value(); rt.labels = x): `pollReenter` is the
     code, not `pollReenterOld` -/
 theorem poll_keeps_labels : Gen.stmtPollKeepsLabels = true := by decide
+
+/-- Otto.Copy is `out := &Otto{runtime: o.runtime.clone()}; out.runtime.otto = out; return out`: the
+    model's `Handle.copy` (no field of the template's handle is carried over, the back pointer is the copy) -/
+theorem copy_fresh_handle : Gen.copyFreshHandle = true := by decide
 
 /-- every evaluator loop that runs script statements calls the statement/expression evaluator
     (hence polls) in each iteration -/
